@@ -328,6 +328,44 @@ def run(prog, rep, tier):
                    'a block decompressor is built on an inner reader that was not positioned absolutely (%s): where the previous decompressor stopped reading depends on the '
                    'sizes of the reads its source served, so a short-reading source shifts the next block' % why, body.loc(b.idx))
     rep.floor('R13.5', nsite, 2, 'constructions of a block decompressor')
+    from .c10 import r10_4
+    r10_4(prog, rep, 'R13.5')     # ... and that helper does seek on every successful return
+
+    # ---------------- R13.6 a stream that delivered exactly its 4 MiB is still handed to the decoder (its end marker may arrive in a later read)
+    fs = one_body(prog, rep, 'R13.6', 'mla', adt='layers::compress::CompressionLayerFailSafeReader', name='read', trait='std::io::Read')
+    if fs is not None:
+        found = []
+        for bl in fs.blocks:
+            si = switch_info(prog, fs, bl.idx)
+            if not si or si['kind'] != 'bool':
+                continue
+            e = expr_of(fs, si['cond'])
+            if e[0] != 'binop' or e[1] not in ('Gt', 'Ge', 'Lt', 'Le', 'Eq', 'Ne'):
+                continue
+            sides = [e[2], e[3]]
+            ci = [i for i, x in enumerate(sides) if x[0] == 'const' and ((x[2] or {}).get('def') or '').endswith('UNCOMPRESSED_DATA_SIZE')]
+            if len(ci) != 1:
+                continue
+            other = sides[1 - ci[0]]
+            if other[0] != 'place' or 'u32' not in fs.lty(other[1][0]):
+                continue
+            o = origins(fs, [other[1][0]], through_calls=False)
+            if not (any(f[-1] == 'uncompressed_read' for f in o.fields) or fs.lname(other[1][0]) == 'uncompressed_read'):
+                continue
+            # the edge taken when counter == SIZE
+            op = e[1]
+            if ci[0] == 0:   # SIZE op counter  ->  counter op' SIZE
+                op = {'Gt': 'Lt', 'Ge': 'Le', 'Lt': 'Gt', 'Le': 'Ge'}.get(op, op)
+            eq_edge = si['true'] if op in ('Ge', 'Le', 'Eq') else si['false']
+            r = reachable_vs(fs, eq_edge)
+            dec = [b for b in fs.calls() if cnorm(b.term).endswith('BrotliDecompressStream')]
+            refuses = not any(d.idx in r for d in dec)
+            found.append((bl.idx, op, refuses))
+        bad = [x for x in found if x[2]]
+        rep.ob('R13.6', bool(found) and not bad, 'R13.6|%s|full-block-still-decoded' % fs.nkey,
+               'with uncompressed_read == UNCOMPRESSED_DATA_SIZE the decoder is still called (%d test(s) against the block size)' % len(found) if (found and not bad) else
+               'a test of the per-stream counter against UNCOMPRESSED_DATA_SIZE refuses the value UNCOMPRESSED_DATA_SIZE itself (%s): the end marker of a full block that arrives '
+               'in a later, shorter read is never consumed and repair stops at the block boundary' % (', '.join(fs.loc(x[0]) for x in bad) or 'no such test found'), fs.loc())
 
     # ---------------- R13.4 no decoder-produced zero count mid-stream
     decoder_zero_count_rule(prog, rep, 'R13.4')
